@@ -52,6 +52,15 @@ CLAIMED = {
  "C16": ("fault_enumeration", "runtime monitoring with fault injection: strace -f as syscall monitor and as injector (every k-th write / openat / mkdirat fails with ENOSPC, EIO, EACCES), before/after filesystem snapshots, comparison with a fault-free in-process generation",
          "The real binary runs in private sandboxes over the flag x input-class x pre-state x name matrix and under every single-fault point of a fault-free run; exit status, announcement, the six files (byte-identical to a reference generation), the syscall policy (O_CREAT|O_EXCL only below <out>/<name>, one mkdir, never unlink/rename/truncate/chmod) and the untouched pre-existing tree are checked per run.",
          "Single faults only (one failing call per run). Faults that hit a console write make the announcement unobservable and are not judged for that clause.", "5/C16"),
+ "C03": ("exploration", "runtime monitoring: differential reference-model oracle (full product walk of reference automata x the observed combined DFA; ownership, state lists and conflict reports)",
+         "For all pairs and seeded larger sets of a relationship-rich definition pool the real Spec.DFA() is observed (partly through spec.Parse of a specification text); the full product of independent per-definition automata and emerge's combined DFA is explored: acceptance, owner of every accepting state, exactness of every terminal's state list, and 'conflict reported iff real' are decided per set.",
+         "Trusted base: R2 automata and literal unescaping. Open finding D20b (dependency queue defect for 64-state chains). Two literals with equal denotation are masked.", "5/C03"),
+ "C08": ("exploration", "runtime monitoring: the emitted package is built and executed - a generated in-package dump of advanceDFA/evalDFA over every state x every relevant code point is compared with the in-process automaton; go/parser and import checks on every file",
+         "Each chosen specification is emitted by the real CLI into a requirement-free scratch module; all files must parse and build; the compiled package dumps its transition function for every state in [-1, N+2] x (alphabet, neighbours, probe characters) and its accepting table, which must equal Spec.DFA() under a start-anchored bijection, with nothing for other states.",
+         "Trusted base: Go toolchain; Spec.DFA() of the same text as the reference (its correctness is C02/C03's).", "5/C08"),
+ "C19": ("exploration", "runtime monitoring: the compiled emitted lexer runs as a child process over automaton-derived inputs and a buffer-alignment padding sweep; its token stream is compared with a reference simulator of the documented scanning discipline on emerge's own automaton",
+         "Emitted lexers are built and driven with inputs generated from their automata (accepting walks, near-misses, stray and multi-byte characters, non-discardable white space, small read chunks) and with paddings that move tokens across every buffer-half alignment; kind, lexeme, offset, line, column and the final EOF/error must equal the reference simulator's.",
+         "Trusted base: R5 simulator (60 lines) over Spec.DFA(). Lexemes shorter than one buffer half.", "5/C19"),
 }
 
 PENDING_REASON = "check not built yet in this round (planned, see DESIGN.md section 5)"
